@@ -5,6 +5,7 @@ import Driver.Precompile
 import Driver.Memory
 import Driver.Frame
 import Driver.CallTracer
+import Driver.Interp
 /-
   Model driver: one input line ↦ one output line (see DESIGN.md §2.6).
 -/
@@ -28,6 +29,9 @@ def dispatch (st : DState) (toks : List String) : DState × String :=
     ({ st with ctFlat := flat == "1", ct := { st := { onlyTop := onlyTop == "1" }, includePrecompiles := incl == "1" } }, "ok")
   | ["EC", flat, onlyTop, incl, parity] =>
     ({ st with ctFlat := flat == "1", ct := { st := { onlyTop := onlyTop == "1" }, includePrecompiles := incl == "1", parity := parity == "1" } }, "ok")
+  | ["EC", flat, onlyTop, incl, parity, pcs] =>
+    let l := if pcs = "." then some [] else (pcs.splitOn ",").mapM parseHexNat
+    ({ st with ctFlat := flat == "1", ct := { st := { onlyTop := onlyTop == "1" }, includePrecompiles := incl == "1", parity := parity == "1", precompiles := l } }, "ok")
   | "E" :: rest =>
     let (c, out) := Driver.ctEvent st.ct st.ctFlat rest
     ({ st with ct := c }, out)
@@ -52,6 +56,9 @@ def dispatch (st : DState) (toks : List String) : DState × String :=
   | "J" :: rest =>
     let (j, tr, out) := Driver.journalOp st.j st.tr rest
     ({ st with j := j, tr := tr }, out)
+  | "IX" :: rest =>
+    let (tr, out) := Driver.interpLine st.j st.tr rest
+    ({ st with tr := tr }, out)
   | "M" :: "mcopy" :: rest => (st, Driver.mcopyLine rest)
   | "S" :: "memmove" :: rest => (st, Driver.specMemmove rest)
   | "TX" :: rest => (st, Driver.transientLine rest)
@@ -77,6 +84,7 @@ def dispatch (st : DState) (toks : List String) : DState × String :=
   | "S" :: "upstream-same" :: _ => (st, "same")
   | "S" :: "upstream-same-gas-sweep" :: _ => (st, "same")
   | "S" :: "tracer-same" :: _ => (st, "same")
+  | "S" :: "tracer-no-panic" :: _ => (st, "ok")
   | "S" :: "tracer-same-tree" :: _ => (st, "same")
   | ["S", "ctrender"] => (st, "ok")
   | ["S", "ctflatinv"] => (st, if preFirstB st.ct.st then "ok" else "join_points_not_pre_first:theorems_do_not_apply")
